@@ -15,6 +15,10 @@ P = {
   "One query per path decides, for every pair of grids inside the bound, that == holds exactly when format label, all longitudes, all latitudes and the whole connectivity table coincide, that != is its negation, symmetry, reflexivity, copy-equality and non-Grid comparison.",
   "Bounds: <=5 nodes, tables <=3x4, three format labels, coordinates arbitrary reals in range (no NaN); pairs with equal shapes, different node/face counts, different table widths, and two grids sharing one dataset object. Trusted: symxr.DataArray.equals as a model of xarray's, z3.",
   "DESIGN.md §2 C20"),
+ "C06": (True,
+  "The real UxDataArray.integrate runs over a real (cloned) Grid whose compute_face_areas executes for real; only the quadrature kernel is an uninterpreted non-negative area function A(face, rule, order). z3 shows, for every data array in the bound and every rule/order, that the result is sum_f A(f,rule,order)*v[...,f] with exactly the face dimension removed, same name and grid; that node- and edge-centred data are rejected even when element counts coincide; and that an earlier area computation with other arguments on the same grid (history) does not change the result.",
+  "Bounds: 3 fixed small grids (incl. n_face=n_node and n_face=n_node=n_edge), 0..3 leading dims of length 2, rules {triangular,gaussian} x orders {1,4,8}, float data arbitrary reals, int data in [-3,3]. Abstracted obligation: sat models are candidates judged by a concrete replay against the low-level area kernel. Trusted: symnp.einsum (validated against numpy each run), z3.",
+  "DESIGN.md §2 C06"),
 }
 NA = {
  "C10": "Quantifies over arbitrary compositions of xarray's own operations; whether the grid survives is decided inside xarray/numpy C-level dispatch which symbolic values cannot cross, and there is no bounded uxarray kernel to encode (DESIGN.md §4).",
